@@ -2,6 +2,7 @@ import TakVerif.Impl.PTN
 import TakVerif.Impl.PTNInst
 import TakVerif.Proofs.PTNIter
 import TakVerif.Proofs.PTNRender
+import TakVerif.Proofs.PTNLink
 
 /-! C12: PTN files — positional lookup (`Iterator`, `PositionAtMove`) and render/parse.
 
@@ -129,6 +130,22 @@ theorem positionAtMove_init_error (env : Env) (f : File) (w : String)
       intro it h; unfold Iter.next; rw [if_pos (by simp [h])]
     rw [this _ rfl]
     exact ⟨w, rfl⟩
+
+/-- **Files read from text**, with the byte-level models of `ParseMove`/`ParseTPS` plugged in
+(`PTN.realEnv`): `NoZero` holds for whatever `ParsePTN` returns (`ParseMove` never yields move type 0), so
+the iterator shows the list-level replay and `PositionAtMove` answers as specified — no hypothesis left
+beyond "the file parses and its start position exists". -/
+theorem positional_lookup_linked (basis : Array W) (input : Bytes) (f : File) (p0 : Pos)
+    (hparse : parsePTN (realEnv basis) input = .ok f) (hinit : initialPosition (realEnv basis) f = .ok p0)
+    (n : Int) (c : Color) :
+    (∃ it0, iterator (realEnv basis) f = .ok it0 ∧
+      collect (realEnv basis) (f.ops.length + 2) it0 = .ok (specFrames basis f.ops 0 p0)) ∧
+    (c = .none ∧ n ≠ 0 → ∃ w, positionAtMove (realEnv basis) f n c = .error (.illegal w)) ∧
+    (¬(c = .none ∧ n ≠ 0) →
+      AtSpec (positionAtMove (realEnv basis) f n c) n c (specFrames basis f.ops 0 p0).1 (specFrames basis f.ops 0 p0).2 none) := by
+  have hnz := parsePTN_noZero_linked basis input f hparse
+  have h2 := positionAtMove_spec (realEnv basis) f p0 hinit hnz n c
+  exact ⟨iterator_spec (realEnv basis) f p0 hinit hnz, h2.1, h2.2⟩
 
 /-! ### Render / Parse
 
